@@ -463,6 +463,7 @@ func sizesFor(count int, pattern int) []int {
 }
 
 func run(c *hl.Ctx) {
+	retention(c)
 	c.Rule("E3 bounded-exhaustive. NAL units: all 256 header bytes x sizes {1,2,3,255,256,257,65535,65536} (thorough: every size 1..1024 + 65534..65537). Records: profile, compatibility, level each over all 256 values (one at a time, per length size); " +
 		"jointly {0,66,100,255}^3 x lengthSizeMinusOne 0..3 x SPS count {0,1,2,31} x PPS count {0,1,2,255} x 3 small-size patterns (thorough: {0,1,66,100,254,255}^3, SPS counts {0,1,2,3,15,16,30,31}, PPS counts {0,1,2,3,127,128,254,255}); NAL sizes {1,2,255,256,65535} for one SPS / one PPS / both, per length size; " +
 		"all 256 first bytes of the first SPS and of the first PPS; (profile, level) pairs with derived compatibility and length size (quick: boundary rows/columns + diagonal, thorough: all 65536); 31 SPS and 255 PPS of 65535 bytes (thorough). Each record: ISO writer -> library reader -> library writer (byte-exact), and for compat=0 " +
